@@ -718,7 +718,10 @@ def run(ctx):
     ctx.cov['rule'] = ('fuzz: gen/malformed.py (seeded): 26 malformed shape families (empty lists, empty/1/2-point paths, duplicates, collinear runs, '
                        'spikes, coincident/overlapping paths, bow-ties, combs, ...) placed at magnitudes tiny..2^62 for boolean clipping and ..2^40 '
                        'elsewhere (scaled, pushed into a corner of the range, exact extremes), every option/parameter incl. 0, negative, huge, '
-                       'inf and NaN, invalid uint8 enums and null arrays at the C boundary, plus general-position families; distinct = distinct '
+                       'inf and NaN, invalid uint8 enums and null arrays at the C boundary, plus general-position families, coincident paths added '
+                       'item by item in arbitrary order (BSEQ) and small-coordinate pinched / sliver / self-touching polygons with 0..20 '
+                       'further polygons around them through the 64-bit and the double entry points (rings that are split while the '
+                       'result builders walk outrec_list_); distinct = distinct '
                        'command lines, each of which calls at least one public entry point inside a forked, watched child (run under both '
                        'builds). ties: synthetic AELs with at least one recorded intersection and path lists with a non-empty Vertex array '
                        '(counted as non-trivial), compared exactly with the extracted models.')
